@@ -21,10 +21,11 @@ or weakens a guard makes the build fail, which the check reports as a broken pro
   (each with the reason it cannot go out of range, or that only the enumeration covers it).  A new unguarded site breaks it.
 
 Partial / trusted: the extractor's dominator analysis is Go code, not verified (its rules are in the header of `harness/sites.go`); the
-reviewed reasons in `expectedDynamic` are prose, checked by a human and exercised by the suites named there; nil dereferences, writes to
-nil maps and explicit `panic` calls are not in the inventory.  So C04's panic-freedom of the Go executors is: Lean-checked arithmetic over
-extracted guards for the 215 + 70 guarded sites (at the time of writing), reviewed list + bounded-exhaustive enumeration for
-the 126 others.
+reviewed reasons in `expectedDynamic` / `expectedNilUnguarded` are prose, checked by a human and exercised by the suites named there; nil
+dereferences other than those of nil-capable lookup results, writes to nil maps and explicit `panic` calls are not in the inventory; facts
+about struct-field paths (`s.timeStamps`, `state.bulkLen`) ignore other goroutines and die at every call.  So C04's panic-freedom of the Go executors is: Lean-checked arithmetic over
+extracted guards for the 221 + 74 guarded sites (at the time of writing), reviewed list + bounded-exhaustive enumeration for
+the 115 others.
 -/
 namespace Sites
 
@@ -142,10 +143,6 @@ def expectedDynamic : List (String × String × String) := [
   ("memdb/pubsub_struct.go", "(*ChanMap).Subscribe", "assert channelTmp.(*Chan)"),
   -- ChanMap.item only ever receives *Chan (single item.Set in Create); C19 suites
   ("memdb/pubsub_struct.go", "(*ChanMap).UnSubscribe", "assert channelTmp.(*Chan)"),
-  -- keys holds one entry per cmd[1..] (counting for-loop append, not a range) and len(cmd) >= 2 / >= 3 was checked: len(keys) >= 1; C11 suites + enumeration
-  ("memdb/sets.go", "sDiffSet", "index keys[0]"),
-  -- keys holds one entry per cmd[1..] (counting for-loop append, not a range) and len(cmd) >= 2 / >= 3 was checked: len(keys) >= 1; C11 suites + enumeration
-  ("memdb/sets.go", "sDiffStoreSet", "index keys[0]"),
   -- reached only when no key was missing, so sets has one entry per key (>= 1) and shortestSet = len(sets)-1 at the time it was set (0 initially); C11 suites + enumeration
   ("memdb/sets.go", "sInterSet", "index sets[shortestSet]"),
   -- same: 0 <= shortestSet < len(sets)
@@ -178,12 +175,6 @@ def expectedDynamic : List (String × String × String) := [
   ("memdb/snapshot.go", "(*MemDb).LoadSnapshot", "index values[i]"),
   -- values = make([]any, len(file.Keys)), i from `range file.Keys`
   ("memdb/snapshot.go", "(*MemDb).LoadSnapshot", "index values[i]"),
-  -- guarded by `len(s.timeStamps) > 0 &&` in the same condition (a field: not tracked)
-  ("memdb/snapshot.go", "restoreValue", "index s.timeStamps[len(s.timeStamps)-1]"),
-  -- n := len(s.timeStamps); n > 0 && … in the same condition
-  ("memdb/snapshot.go", "restoreValue", "index s.timeStamps[n-1]"),
-  -- vals = make([]string, len(e.Fields)), i from `range e.Fields`
-  ("memdb/snapshot.go", "restoreValue", "index vals[i]"),
   -- Fields: make([][]byte, len(vals)) in the literal above, i from `range vals`
   ("memdb/snapshot.go", "snapshotValue", "index e.Fields[i]"),
   -- t.Len is the list's element counter (>= 0: List invariant, C09 list_never_empty / Ds/ListIdx)
@@ -228,10 +219,6 @@ def expectedDynamic : List (String × String × String) := [
   ("memdb/sorted_set_struct.go", "(*SortedSetNode).Comp", "assert val.(*SortedSetNode)"),
   -- idx <= len(cmd): every idx++ follows an `idx < len(cmd)` / `idx+1 < len(cmd)` test of the option loop; C18 suites + enumeration (XADD options in the alphabet)
   ("memdb/stream.go", "xadd", "slice cmd[idx:]"),
-  -- inside `len(ids) == len(entries)` and i < len(ids)
-  ("memdb/stream.go", "xrange", "index entries[i]"),
-  -- inside `len(ids) == len(entries)` and i < len(ids)
-  ("memdb/stream.go", "xrange", "index entries[i]"),
   -- count > 0 && len(ids) > count, and Stream.Range returns ids and entries of equal length
   ("memdb/stream.go", "xrange", "slice entries[:count]"),
   -- after `len(s.timeStamps) == 0` returned (a field: not tracked); callers hold the key's write lock
@@ -280,20 +267,12 @@ def expectedDynamic : List (String × String × String) := [
   ("resp/parser.go", "parseBulkHeader", "slice msg[1 : len(msg)-2]"),
   -- msg comes from readLine's line branch, which returns only len(msg) >= 2; model Resp.parse + C02 exhaustive suite
   ("resp/parser.go", "parseSingleLine", "index msg[0]"),
-  -- msg = make([]byte, bulkLen+2) with bulkLen >= 0 (a field: not tracked)
-  ("resp/parser.go", "readLine", "index msg[len(msg)-1]"),
-  -- same: len(msg) >= 2
-  ("resp/parser.go", "readLine", "index msg[len(msg)-2]"),
-  -- 0 <= state.bulkLen <= maxBulkLen: set by parseBulkHeader after the range check, the branch tests bulkLen >= 0; C02 suite (huge and negative lengths)
-  ("resp/parser.go", "readLine", "make make([]byte, state.bulkLen+2)"),
   -- i from `range m.filters`; returns right after the change
   ("server/cmd_middleware.go", "(*middleware).Delete", "slice m.filters[:i]"),
   -- same: i+1 <= len
   ("server/cmd_middleware.go", "(*middleware).Delete", "slice m.filters[i+1:]"),
   -- len(m.DBs) = cfg.Databases >= 1 (config.go refuses Databases <= 0) — configuration, not client input
   ("server/db_manager.go", "(*Manager).Handle", "index m.DBs[0]"),
-  -- guarded by `dbIdx >= len(m.DBs) || dbIdx < 0` just above (a field: not tracked); C20 suite
-  ("server/db_manager.go", "(*Manager).selectDB", "index m.DBs[dbIdx]"),
   -- cfg.Databases >= 1 from the configuration
   ("server/db_manager.go", "NewManager", "index DBs[0]"),
   -- cfg.Databases >= 1 from the configuration
